@@ -76,8 +76,38 @@ Defined.
 
 Definition ident := list fval.               (* the hashed tuple; sha1/base64 trusted injective *)
 Definition ident_eq_dec : forall a b : ident, {a = b} + {a <> b} := list_eq_dec fval_eq_dec.
-Definition str_eqb (a b : str) : bool := if str_eq_dec a b then true else false.
-Definition ident_eqb (a b : ident) : bool := if ident_eq_dec a b then true else false.
+(* boolean equalities (proved equivalent to Leibniz equality in Lemmas.v); the sumbool deciders
+   above are kept for statements, these are what the executable model runs *)
+Fixpoint leqb {A} (eqb : A -> A -> bool) (a b : list A) : bool :=
+  match a, b with
+  | [], [] => true
+  | x :: a', y :: b' => eqb x y && leqb eqb a' b'
+  | _, _ => false
+  end.
+Definition oeqb {A} (eqb : A -> A -> bool) (a b : option A) : bool :=
+  match a, b with Some x, Some y => eqb x y | None, None => true | _, _ => false end.
+Definition str_eqb (a b : str) : bool := leqb Ascii.eqb a b.
+Definition rat_eqb (a b : rat) : bool := Z.eqb (fst a) (fst b) && Pos.eqb (snd a) (snd b).
+Definition dr_eqb (a b : nat * nat * rat) : bool :=
+  Nat.eqb (fst (fst a)) (fst (fst b)) && Nat.eqb (snd (fst a)) (snd (fst b)) && rat_eqb (snd a) (snd b).
+Definition dz_eqb (a b : nat * nat * Z) : bool :=
+  Nat.eqb (fst (fst a)) (fst (fst b)) && Nat.eqb (snd (fst a)) (snd (fst b)) && Z.eqb (snd a) (snd b).
+Definition pc_eqb (a b : pcharge) : bool :=
+  rat_eqb (fst (fst (fst a))) (fst (fst (fst b))) && rat_eqb (snd (fst (fst a))) (snd (fst (fst b))) &&
+  rat_eqb (snd (fst a)) (snd (fst b)) && rat_eqb (snd a) (snd b).
+Definition fval_eqb (a b : fval) : bool :=
+  match a, b with
+  | VS x, VS y => str_eqb x y
+  | VZ x, VZ y => Z.eqb x y
+  | VLS x, VLS y => leqb str_eqb x y
+  | VOS x, VOS y => oeqb str_eqb x y
+  | VLN x, VLN y => leqb Nat.eqb x y
+  | VDR x, VDR y => leqb dr_eqb x y
+  | VDZ x, VDZ y => leqb dz_eqb x y
+  | VPC x, VPC y => oeqb (leqb pc_eqb) x y
+  | _, _ => false
+  end.
+Definition ident_eqb (a b : ident) : bool := leqb fval_eqb a b.
 
 (* Python round(q, d) for a double with exact value q: round-half-even of q * 10^d, as an integer
    number of 10^-d units (two values print the same iff these integers agree) *)
@@ -266,37 +296,47 @@ Record obs := mkObs { ob_name : str; ob_invoked : bool;
 Record state := mkState { st_reg : registry; st_fs : fsys }.
 Definition side_name (N : str) : str := N ++ s2l "_side.tmp".    (* scratch file the scripted program leaves *)
 
+(* generate_input: the input file and the additional files are (re)written under the final name *)
+Definition stage_inputs (N : str) (inputs : list str) (fs : fsys) : fsys :=
+  fold_left (fun f nm => fs_write (mkFile nm N KInput) f) inputs fs.
+(* _execute_external: unless skipped, the scripted program runs and writes (or not) the output *)
+Definition stage_program (skip : bool) (oc : outcome) (N outF : str) (r : request) (fs1 : fsys) : fsys :=
+  if skip then fs1 else
+  match oc with
+  | ONormal => fs_write (mkFile (side_name N) N KSide) (fs_write (mkFile outF N (KOutput (mkContent true r))) fs1)
+  | OAbnormal => fs_write (mkFile (side_name N) N KSide) (fs_write (mkFile outF N (KOutput (mkContent false r))) fs1)
+  | ONoOutput => fs1
+  end.
+(* set_properties needs the output to exist and parses the file named after THIS calculation; an
+   exception there skips run()'s own clean_up; Calculation.run finally raises if the output did not
+   terminate normally.  -> (whose energy, raised?, was run()'s clean_up reached?) *)
+Definition stage_result (fs2 : fsys) (outF : str) : option request * bool * bool :=
+  match fs_find fs2 outF with
+  | Some (mkFile _ _ (KOutput c)) => (Some (c_producer c), negb (c_normal c), true)
+  | _ => (None, true, false)
+  end.
+Definition stage_cleanup (cm : cmode) (reached : bool) (N : str) (inputs : list str) (outF : str) (fs2 : fsys) : fsys :=
+  let dir := map f_name fs2 in
+  match cm with
+  | CNone => fs2
+  | CAuto => if reached then fs_remove_all (cleanup_selection false N inputs outF dir) fs2 else fs2
+  | CForce => fs_remove_all (cleanup_selection false N inputs outF dir) fs2
+  | CEverything => fs_remove_all (cleanup_selection true N inputs outF dir) fs2
+  end.
+
 Definition exec_op (st : state) (o : op) : state * obs :=
   let r := o_req o in
   let m := rq_method r in
-  let '(R1, N) := reg_step (st_reg st) r in                                  (* generate_input: _fix_unique *)
-  let inF := N ++ in_ext m in
+  let R1 := fst (reg_step (st_reg st) r) in                                   (* generate_input: _fix_unique *)
+  let N := snd (reg_step (st_reg st) r) in
   let outF := N ++ out_ext m in
-  let inputs := inF :: o_aux o in
-  let fs1 := fold_left (fun f nm => fs_write (mkFile nm N KInput) f) inputs (st_fs st) in
+  let inputs := (N ++ in_ext m) :: o_aux o in
+  let fs1 := stage_inputs N inputs (st_fs st) in
   let skip := reuse_rule (fs_exists fs1 outF) (fs_normal fs1 outF) in           (* _execute_external *)
-  let fs2 := if skip then fs1 else
-             match o_out o with
-             | ONormal => fs_write (mkFile (side_name N) N KSide) (fs_write (mkFile outF N (KOutput (mkContent true r))) fs1)
-             | OAbnormal => fs_write (mkFile (side_name N) N KSide) (fs_write (mkFile outF N (KOutput (mkContent false r))) fs1)
-             | ONoOutput => fs1
-             end in
-  (* set_properties needs the output to exist and parses the file named after THIS calculation;
-     an exception there skips run()'s own clean_up; Calculation.run finally raises if the output
-     did not terminate normally *)
-  let '(energy, raised, reached_cleanup) :=
-      match fs_find fs2 outF with
-      | Some (mkFile _ _ (KOutput c)) => (Some (c_producer c), negb (c_normal c), true)
-      | _ => (None, true, false)
-      end in
-  let dir := map f_name fs2 in
-  let fs3 := match o_cm o with
-             | CNone => fs2
-             | CAuto => if reached_cleanup then fs_remove_all (cleanup_selection false N inputs outF dir) fs2 else fs2
-             | CForce => fs_remove_all (cleanup_selection false N inputs outF dir) fs2
-             | CEverything => fs_remove_all (cleanup_selection true N inputs outF dir) fs2
-             end in
-  (mkState R1 fs3, mkObs N (negb skip) energy raised).
+  let fs2 := stage_program skip (o_out o) N outF r fs1 in
+  let res := stage_result fs2 outF in
+  let fs3 := stage_cleanup (o_cm o) (snd res) N inputs outF fs2 in
+  (mkState R1 fs3, mkObs N (negb skip) (fst (fst res)) (snd (fst res))).
 
 Fixpoint run_ops (st : state) (ops : list op) : state * list obs :=
   match ops with
